@@ -771,8 +771,7 @@ class Mesh3D(MeshBase):
 
     def __key(self):
         """A tuple based on the object properties, useful for hashing."""
-        return tuple(hash(pt) for pt in self._vertices) + \
-            tuple(hash(face) for face in self._faces)
+        return tuple(self._vertices) + tuple(self._faces)
 
     def __hash__(self):
         return hash(self.__key())
